@@ -299,6 +299,7 @@ def situations(h):
       moveout       a revision moves an entry out of a directory that keeps another entry and is otherwise untouched
       movein        ... into a directory that already held another entry and is otherwise untouched
       diremptied    a directory loses all its content (deleted or moved away) but stays
+      dirrename-loses-entry / -gains-entry   a directory is renamed and, in the same revision, an entry leaves / joins it
       swap          two objects exchange their paths
       tipmerge-left / -right   the tip is a merge of parents neither of which descends from the other, and keeps an
                     entry of its first (last) parent that the other parent does not have in that form -- transferred in
@@ -339,6 +340,13 @@ def situations(h):
             if e["k"] == "directory" and e["o"] in bo and bo[e["o"]]["k"] == "directory":
                 if inside(b, tuple(bo[e["o"]]["p"])) and not inside(t, tuple(e["p"])):
                     f.add("diremptied")
+                if bo[e["o"]]["p"] != e["p"]:                  # renamed directory: does an entry leave / join / change in it?
+                    was = {x[0] for x in inside(b, tuple(bo[e["o"]]["p"]))}
+                    now = {x[0] for x in inside(t, tuple(e["p"]))}
+                    if was - now:
+                        f.add("dirrename-loses-entry")
+                    if now - was:
+                        f.add("dirrename-gains-entry")
         if len(ps) > 1:
             p1, p2 = ps[0], ps[-1]
             if p2 not in _ancestry(h["P"], p1) and p1 not in _ancestry(h["P"], p2):
